@@ -19,7 +19,7 @@ func (c11) CrashIsViolation() bool { return true }
 func (c11) CaseTimeout(string) int { return 40 }
 func (c11) Rule() string {
 	return "hand-built plans (SingleFetch trees over gated fake datasources whose answer is a pure function of datasource id, rendered input and forwarded header) driven through Resolver.ArenaResolveGraphQLResponse. " +
-		"Scripted cases: the 14 scenarios of notes/scenarios.md (1-6 inbound layer, 7-12 the same at the subgraph layer between different client operations containing an identical fetch, 13 keys differing only in variables / headers / datasource id, 14 identical mutations, 15 a participant's own client writer failing - leader's or one follower's, first Write failing or short write, writers failing only on later Writes / Flush - with followers joined before or parked across the leader's finish, 16 saturated resolver (MaxConcurrency 1-2, slots held by unrelated parked operations): leader queued for a slot, followers joined, leader or a follower cancelled while queued, slots released), " +
+		"Scripted cases: the 14 scenarios of notes/scenarios.md (1-6 inbound layer, 7-12 the same at the subgraph layer between different client operations containing an identical fetch, 13 keys differing only in variables / headers / datasource id, 14 identical mutations, 15 a participant's own client writer failing - leader's or one follower's, first Write failing or short write, writers failing only on later Writes / Flush - with followers joined before or parked across the leader's finish, 16 saturated resolver (MaxConcurrency 1-2, slots held by unrelated parked operations): leader queued for a slot, followers joined, leader or a follower cancelled while queued, slots released; appended after the stress cases: 17 identical concurrent operations of type subscription / unknown, which must never be shared), " +
 		"each in its variants (upstream ok / upstream failure rendered / failure as Go error through the rate limiter / leader cancelled) and both release orders, with 2-4 participants from the seed; a yield controller parks the first goroutine(s) reaching the named verif yield point, runs the competing action, releases. " +
 		"Stress cases: rounds of 8-64 goroutines on 1-3 hot keys mixing equal and different variables, headers, operations, mutations, upstream failures client writer failures (8% of the participants) and cancellations (before start, at the participant's own upstream call, timed, at the n-th hit of a yield point) with seeded micro delays at all six C11 yield points and in the upstream. " +
 		"Oracle on every participant of every scenario: outcome is its solo bytes (reference run alone with both de-duplication layers off, cross-checked against the by-construction bytes), or the upstream failure every request with that key hits, or its own context error / the rendering of its own cancellation, or the error of its OWN client writer (each participant's writer error is a distinct value; seeing another participant's is a violation); upstream call accounting per participant (mutations: exactly one own call; a participant answered without an own call needs a call for exactly its key); follower buffers re-hashed after the resolver's arenas were reused; all participants return once gates are open. " +
@@ -35,7 +35,7 @@ func (c11) Assumptions() []string {
 }
 func (c11) RequiredCounters(string) []string {
 	req := []string{"scenarios", "participants", "parks", "flights_shared_inbound", "flights_shared_subgraph", "upstream_calls", "limiter_calls",
-		"follower_buffers_rehashed", "mutation_fetches_checked", "dedup_data_deliveries", "outcome.solo_bytes", "outcome.own_cancel_error", "outcome.own_cancel_rendered",
+		"follower_buffers_rehashed", "mutation_fetches_checked", "non_query_fetches_checked", "dedup_data_deliveries", "outcome.solo_bytes", "outcome.own_cancel_error", "outcome.own_cancel_rendered",
 		"outcome.shared_upstream_failure_rendered", "outcome.shared_upstream_failure_error", "stress_rounds",
 		"outcome.own_writer_error", "writer_faults_injected", "writer_writes", "participants_with_writer_fault.first-write", "participants_with_writer_fault.short-write", "participants_with_writer_fault.later-write-or-flush"}
 	for _, p := range c11Points {
@@ -75,17 +75,31 @@ func stressCases(tier string) (cases, rounds int) {
 	return 200, 10
 }
 
+// appended cases (after the stress cases, so that every earlier index keeps its case): scenario 17,
+// identical concurrent operations whose type is subscription / unknown.
+func appendedCases(tier string) int {
+	if tier == fw.Thorough {
+		return 2 * 2 * 30
+	}
+	return 2 * 2 * 6
+}
+
 func (c11) NumCases(tier string) int {
 	n, _ := stressCases(tier)
-	return scriptedCases(tier) + n
+	return scriptedCases(tier) + n + appendedCases(tier)
 }
 
 func (p c11) Run(c *fw.Ctx, idx int) fw.Result {
 	res := fw.Result{}
 	rng := c.Rng(idx, "c11")
-	if idx < scriptedCases(c.Tier) {
+	nStress, _ := stressCases(c.Tier)
+	if app := idx - scriptedCases(c.Tier) - nStress; idx < scriptedCases(c.Tier) || app >= 0 {
 		sc := scriptTable[idx%len(scriptTable)]
 		rep := idx / len(scriptTable)
+		if app >= 0 {
+			sc = scriptCase{num: 17, variant: app % 2, order: app / 2 % 2}
+			rep = app / 4
+		}
 		k := rep%3 + 1 // followers: 1..3, i.e. 2..4 participants
 		label := fmt.Sprintf("S%d/v%d/o%d/k%d", sc.num, sc.variant, sc.order, k)
 		s := runScripted(&res, rng, sc, k, label)
@@ -471,6 +485,32 @@ func runScripted(res *fw.Result, rng *rand.Rand, c scriptCase, k int, label stri
 				sc.release(ptFollower, nf)
 				sc.settle()
 			}
+			sc.openGate(g)
+		})
+	case 17:
+		// identical concurrent operations that are neither query nor mutation (variant 0:
+		// Info.OperationType subscription, 1: unknown, the zero value): same Request.ID, variables and
+		// headers, yet each must load on its own. Order 0: all start together behind the closed gate;
+		// order 1: one starts first and is in its upstream call when the others arrive.
+		sc.run(func() {
+			plan := []string{"SUB", "UNK"}[c.variant]
+			var ps []*participant
+			for i := 0; i < k+1; i++ {
+				ps = append(ps, sc.add(fmt.Sprintf("N%d", i+1), reqSpec{Plan: plan, V: v, Hdr: hdr}))
+			}
+			g.setOpen(false)
+			if c.order == 1 {
+				sc.start(ps[0])
+				sc.waitBlocked(g, 1)
+			}
+			sc.start(ps...)
+			// every request reaches the upstream; one that arrives at the follower point instead is
+			// (wrongly) being de-duplicated and will never get there
+			n := len(ps)
+			sc.waitFor(fmt.Sprintf("step-timeout: %d upstream calls expected at the gate", n), func() bool {
+				return g.blocked()+int(ctl.hitCount(ptInFollowerBeforeRegister, 0)+ctl.hitCount(ptSubFollowerBeforeWait, 0)) >= n
+			})
+			sc.settle()
 			sc.openGate(g)
 		})
 	case 14:
